@@ -5,7 +5,7 @@ ROOT = os.path.dirname(os.path.dirname(os.path.abspath(__file__)))
 sys.path.insert(0, os.path.join(ROOT, "tools"))
 import plans
 
-HOOK_COMMITS = ["d9913d3"]
+HOOK_COMMITS = ["d9913d3", "8e2e077"]
 
 TEXT = {
     "C01": ("exploration", "5 C01",
@@ -80,6 +80,12 @@ TEXT.update({
     "C20": ("exploration", "5 C20",
             "Seeded random serializable values are pushed through the container and compared with the pointee's own serialization (string and token tree), for ArcSwap and ArcSwapOption, under all three default-constructible strategies; deserialization is checked for value and reference count; a pointee whose Serialize impl stores into the container half-way checks that the serialized value is a protected snapshot; deserialize_in_place is run with guards outstanding; natively, under ASan and under Miri.",
             "differential monitor container-vs-pointee serialization over random values + ASan/Miri"),
+})
+
+TEXT.update({
+    "C18": ("fault_enumeration", "5 C18",
+            "Every piece of user code the library calls is owned by the harness and can be made to panic at its n-th invocation; positions are enumerated against a counting run of the same seeded execution (sequential and TOKEN-scheduled, guards held, rcu retries forced, destructors running inside a writer's walk by a directed schedule). After catch_unwind the execution goes on; history with the panicked operation open, conservation law, slots, control words and leaks are checked. Run natively and under ASan.",
+            "fault enumeration over user-code invocations + post-unwind invariant monitors"),
 })
 
 NOTE = {
